@@ -758,6 +758,57 @@ def html_names_need_html_namespace(ctx):
                 detail={"test": norm(t.ast)[:60]})
 
 
+def current_node_name_beliefs(ctx):
+    """C03.10 (second clause): in a phase in which the current node can be a foreign element (the phase's handling of an
+    <svg>/<math> start tag reaches the in-body handlers that insert one), a test of the current node's *name* that leads to
+    `assert ...innerHTML` must also look at its namespace: a foreign element called `html` (<svg><html>) otherwise satisfies
+    the belief "only the root can be called html here, so this is the fragment case" in a document parse."""
+    r = ctx.r
+    pm = model(ctx)
+    inbody = pm.phases["inBody"]
+    inserters = {m.fq for n, m in inbody.methods.items() if n in ("startTagSvg", "startTagMath")}
+    if len(inserters) != 2:
+        raise AnalysisError("InBodyPhase.startTagSvg / startTagMath not found")
+    foreign_phases = set()
+    for key, cls in pm.phases.items():
+        h, how = pm.handler(cls, "StartTag", "svg")
+        if h is None:
+            continue
+        nodes, edges, sites = pm.build_graph([(h, "svg")])
+        if {f.fq for f, n in nodes.values()} & inserters:
+            foreign_phases.add(key)
+    if "inTable" not in foreign_phases or "inBody" not in foreign_phases:
+        raise AnalysisError("phases in which a foreign element can become the current node were not recognised: %s" % sorted(foreign_phases))
+    n = 0
+    for key in sorted(foreign_phases):
+        cls = pm.phases[key]
+        for m in cls.methods.values():
+            asserts = [s for s in walk_no_nested(m.node) if isinstance(s, ast.Assert) and norm(s.test).endswith("innerHTML")]
+            if not asserts:
+                continue
+            cfg = CFG(m.node)
+            for a in asserts:
+                an = cfg.locate(a)
+                if not an:
+                    continue
+                name_tests = [t for t in cfg.nodes if t.kind == "test" and isinstance(t.ast, ast.Compare) and
+                              norm(t.ast.left).endswith("openElements[-1].name") and
+                              (cfg.dominated_by(an[0], lambda x, lab, t=t: x is t and lab is True) or
+                               cfg.dominated_by(an[0], lambda x, lab, t=t: x is t and lab is False))]
+                if not name_tests:
+                    continue
+                n += 1
+                ns_checked = cfg.dominated_by(an[0], lambda x, lab: x.kind == "test" and "openElements[-1].namespace" in norm(x.ast))
+                r.check("C03.10", ns_checked, "current-node-name-belief::%s" % m.qual, "%s:%d" % (PARSER_REL, a.lineno),
+                        "%s asserts the fragment case after testing only the *name* of the current node (`%s`); in the %s insertion mode "
+                        "the current node can be a foreign element of that name (e.g. <table><svg><html>), so the assertion fails in a "
+                        "document parse" % (m.qual, norm(name_tests[0].ast), key), {"method": m.qual},
+                        detail={"method": m.qual, "test": norm(name_tests[0].ast)})
+    r.extra["phases_with_foreign_current_node"] = sorted(foreign_phases)
+    if n < 1:
+        raise AnalysisError("C03.10: no innerHTML belief guarded by a current-node name test was found")
+
+
 def none_argument(ctx):
     """C03.11: a value that a function can return as None (a None-initialised local returned inside a tuple) is not passed to a
     parameter that every implementation dereferences without a None test."""
@@ -1075,6 +1126,7 @@ def run(ctx):
     none_use(ctx)
     reprocess_progress(ctx)
     html_names_need_html_namespace(ctx)
+    current_node_name_beliefs(ctx)
     none_argument(ctx)
     from . import modes
     modes.run(ctx, "C03.12")
@@ -1092,6 +1144,10 @@ def thorough(ctx):
 def mutants():
     from ..selftest import TextMutant as T
     return [
+        T("table-eof-name-only", "html5parser.py", "        if (self.tree.openElements[-1].name != \"html\" or\n                self.tree.openElements[-1].namespace != self.tree.defaultNamespace):\n            self.parser.parseError(\"eof-in-table\")",
+          "        if self.tree.openElements[-1].name != \"html\":\n            self.parser.parseError(\"eof-in-table\")", "C03.10"),
+        T("table-body-context-name-only", "html5parser.py", "        while (self.tree.openElements[-1].namespace != self.tree.defaultNamespace or\n               self.tree.openElements[-1].name not in (\"tbody\", \"tfoot\",\n                                                       \"thead\", \"html\")):",
+          "        while self.tree.openElements[-1].name not in (\"tbody\", \"tfoot\", \"thead\", \"html\"):", "C03.10"),
         T("int-unbounded-digits", "_tokenizer.py", "        number = \"\".join(charStack).lstrip(\"0\")\n        if len(number) > 7:\n            charAsInt = 0x110000\n        else:\n            charAsInt = int(number or \"0\", radix)\n",
           "        charAsInt = int(\"\".join(charStack), radix)\n", "C03.13"),
         T("inrow-endtable-unguarded", "html5parser.py",
